@@ -333,5 +333,6 @@ ANCHORS = {
     'for_each': ['^babylon::ConcurrentVector(<|$)'],
     'is_closed': ['^babylon::ConcurrentTransientTopic(<|$)'],
     'is_published': ['^babylon::ConcurrentTransientTopic(<|$)'],
+    'set_published': ['^babylon::ConcurrentTransientTopic(<|$)'],
     'wait_until_ready': ['^babylon::ConcurrentTransientTopic(<|$)'],
 }
